@@ -487,7 +487,7 @@ Theorem weight_grid_corner :
 Proof.
   pose proof (parent_box RR nrows ncols xll yll csz acc Hnonempty Hnodup Hvalid) as (Hb & _ & (k2 & I2 & E2) & (k3 & I3 & E3) & _).
   fold r in Hb, I2, E2, I3, E3.
-  assert (Hhalf : ndiv RR csz (nofZ RR INTERSECT_HALF_DIV) = csz / 2) by reflexivity.
+  assert (Hhalf : ndiv RR csz (nadd RR (n1 RR) (n1 RR)) = csz / 2) by (cbn; unfold Rdiv; replace (1 + 1) with 2 by lra; reflexivity).
   assert (Hne : map fst acc <> []) by (destruct acc; [congruence|discriminate]).
   split.
   - unfold r at 1, ires_of_acc. cbn [ir_xll]. rewrite Hhalf. cbn [nsub RR].
